@@ -7,7 +7,7 @@
 (* printed as <<"MISMATCH", json>> and classified against the open known   *)
 (* findings.  TraceAccepted requires that every line was consumed.         *)
 (***************************************************************************)
-EXTENDS Order, KnownFindings, Range, ShorthandSem, VersSyntax, CliSem, TotalitySem, Json, SequencesExt, FiniteSetsExt, Dpkg, MavenCV, SemVer, Pep440, GemVersion, Apk
+EXTENDS Order, KnownFindings, DocOrder, Range, ShorthandSem, VersSyntax, CliSem, TotalitySem, Json, SequencesExt, FiniteSetsExt, Dpkg, MavenCV, SemVer, Pep440, GemVersion, Apk
 
 CONSTANTS TraceFile,     \* path of the NDJSON trace
           Prop,          \* property id being judged, e.g. "C01"
@@ -53,7 +53,16 @@ MatrixC01(ev) ==
       ikey == IF irr = {} THEN <<>> ELSE TLCEval([i \in I |-> IrrKey(ev.eco, S2C(ev.texts[i]))])
       rec(p, why) == [prop |-> "C01", eco |-> ev.eco, why |-> why, a |-> ev.texts[p[1]], b |-> ev.texts[p[2]],
                       got |-> M[p[1]][p[2]], rev |-> M[p[2]][p[1]], model |-> 2, known |-> ""]
-  IN {rec(p, "sign") : p \in badsign} \cup {rec(p, "rank") : p \in unexplReg \ badsign}
+      \* drift report (INFO, never a verdict): observed signs against the documented order of DocOrder.tla
+      docI == IF ev.eco \in DocEcos THEN {i \in I : DocScope(ev.eco, S2C(ev.texts[i]))} ELSE {}
+      docK == TLCEval([i \in docI |-> S2C(ev.texts[i])])
+      docBad == {p \in docI \X docI : DocCmp(ev.eco, docK[p[1]], docK[p[2]]) # M[p[1]][p[2]]}
+      docEx == LET q == SetToSeq(docBad) IN [j \in 1..Min2(Len(q), 3) |-> <<ev.texts[q[j][1]], ev.texts[q[j][2]], M[q[j][1]][q[j][2]]>>]
+      docOk == ev.eco \notin DocEcos
+               \/ PrintT(<<"INFO", ToJson([docOrder |-> ev.eco, docMembers |-> Cardinality(docI), docOutOfScope |-> n - Cardinality(docI),
+                                            docDrift |-> Cardinality(docBad), docExamples |-> docEx])>>)
+  IN IF ~docOk THEN {} ELSE
+     {rec(p, "sign") : p \in badsign} \cup {rec(p, "rank") : p \in unexplReg \ badsign}
      \cup {[rec(p, "rank-irregular") EXCEPT !.model = IrrCmp(ev.eco, ikey[p[1]], ikey[p[2]])]
              : p \in (unexpl \ unexplReg) \ badsign}
      \cup {[prop |-> "C01", eco |-> ev.eco, why |-> "panic", a |-> ev.panics[i], b |-> "", got |-> 0, rev |-> 0, model |-> 2, known |-> ""]
